@@ -313,12 +313,12 @@ fn vk_c09_exported_global() { exported_set(false); }
 #[kani::unwind(6)]
 fn vk_c09_exported_local_over_global() { exported_set(true); }
 
-//@proof {'props': ['C09'], 'tier': 'quick', 'timeout': 900, 'uses': ['env_file'], 'bounds': 'global x with a value (exported? symbolic) shadowed in a function by a local x (exported? has a value? symbolic)', 'desc': 'what a child process is given for a name with two bindings, as in bash: the innermost binding that is exported and has a value - a local that is not exported, or has no value yet, does not hide an exported outer value from children, and an exported local with a value is what they see; never both'}
+//@proof {'props': ['C09'], 'tier': 'thorough', 'timeout': 1800, 'uses': ['env_file'], 'bounds': 'an exported global x with a value, shadowed in a function by a local x (exported? has a value? symbolic)', 'desc': 'what a child process is given for a name with two bindings, as in bash: the innermost binding that is exported and has a value - a local that is not exported, or has no value yet, does not hide an exported outer value from children, and an exported local with a value is what they see; never both'}
 #[kani::proof]
 #[kani::unwind(6)]
 fn vk_c09_exported_binding_seen_by_children() {
     let mut env = ShellEnvironment::new();
-    let (ge, gs, le, ls): (bool, bool, bool, bool) = (kani::any(), true, kani::any(), kani::any());
+    let (ge, gs, le, ls): (bool, bool, bool, bool) = (true, true, kani::any(), kani::any());
     let mk = |tag: u8, exported: bool, set: bool| ShellVariable { value: if set { ShellValue::String(0) } else { ShellValue::Unset(ShellValueUnsetType::Untyped) }, readonly: false, exported, tag, writes: 0 };
     let r = env.add("x", mk(1, ge, gs), EnvironmentScope::Global); std::mem::forget(r);
     env.push_scope(EnvironmentScope::Local);
